@@ -357,9 +357,82 @@ def run_case(c, res):
                 res.count("order_checked")
 
 
+def gen_relay(rng):
+    """Directed class: the receiver is out of the sender's radio range and reachable only through k relays that all hear the
+    sender (k = 2: a 'diamond'); everybody is inside the destination area, several stations of the scenario live in this one
+    process.  One delivery per station, none at the sender."""
+    lat, lon = rng.choice(((41.39, 2.11), (-33.45, -70.66), (0.0005, -0.0005), (64.1, -21.9), (-41.3, 174.8)))
+    return {"family": "relay", "base": [lat, lon], "k": rng.choice((1, 2, 2, 2, 3, 4)), "alg": rng.choice((1, 2, 2)), "kind": rng.choice(("gbc", "gbc", "gbc")),
+            "npk": rng.choice((1, 2, 3)), "hop": rng.choice((3, 10)), "btp": rng.choice("AB"), "dport": rng.choice((2001, 2002, 5000)),
+            "cbf_max": rng.choice((100, 100, 400)), "seed": rng.randrange(1 << 30)}
+
+
+def run_relay_case(c, res):
+    from vf.gnharness import World, btp_request, area as mk_area, mid_of
+    from flexstack.geonet.mib import AreaForwardingAlgorithm
+    rng = random.Random(c["seed"])
+    lat, lon = c["base"]
+    k = c["k"]
+    with World() as w:
+        def st(name, i, north, east):
+            la, lo = G.destination(lat, lon, north, east)
+            return w.add(name, mid_of(i), lat=to_int(la), lon=to_int(lo), ports=(c["dport"],),
+                         mib_over={"itsGnAreaForwardingAlgorithm": AreaForwardingAlgorithm(c["alg"]), "itsGnCbfMaxTime": c["cbf_max"]})
+        A = st("A", 1, 0.0, 0.0)
+        R = [st(f"R{j}", 2 + j, rng.uniform(-60, 60), 300.0 + rng.uniform(-40, 40)) for j in range(k)]
+        D = st("D", 2 + k, rng.uniform(-20, 20), 600.0)
+        for r in R:
+            w.ether.connect("A", r.name)
+            w.ether.connect(r.name, "D")
+        for s_ in [A, D] + R:
+            s_.router.gn_data_request_beacon()
+        w.settle()
+        ca, co = G.destination(lat, lon, 0.0, 300.0)
+        ar = mk_area(to_int(ca), to_int(co), 1200, 1200, 0)
+        sent = []
+        try:
+            for n_ in range(c["npk"]):
+                pl = b"relay-%d-" % n_ + bytes(rng.randrange(256) for _ in range(rng.choice((0, 5, 40))))
+                A.btp.btp_data_request(btp_request(c["kind"], pl, btp=c["btp"], dport=c["dport"], ar=ar, hop=c["hop"]))
+                sent.append(pl)
+                if rng.random() < 0.5:
+                    w.settle()
+                    w.clock.advance(rng.choice((0.0, 0.01, 0.5)))
+            for _ in range(6):
+                w.settle()
+                w.clock.advance(c["cbf_max"] / 1000.0 + 0.05)
+            w.settle()
+        except Exception as e:  # noqa
+            res.violation(f"C01:relay-scenario-raises-{type(e).__name__}", f"{e!r}", c)
+            return
+        if w.ether.errors:
+            e = w.ether.errors[0][3]
+            res.violation(f"C01:reception-raises-{type(e).__name__}[relay]", f"{e!r}", c)
+            return
+        res.count("relay.scenarios")
+        res.count(f"relay.forwarders[{k}]")
+        for s_ in [D] + R + [A]:
+            got = [bytes(ind.data) for (_, port, ind) in s_.btp_ind if port == c["dport"]]
+            for pl in sent:
+                res.count("relay.deliveries_judged")
+                n_got = got.count(pl)
+                want = 0 if s_ is A else 1
+                if n_got != want:
+                    role = "sender" if s_ is A else ("receiver-behind-the-relays" if s_ is D else "relay")
+                    res.violation(f"C01:payload-delivered-{n_got}-times-instead-of-{want}[{role}][relayed-{c['kind']}][forwarders={'1' if k == 1 else 'even' if k % 2 == 0 else 'odd'}]",
+                                  f"{s_.name}: {n_got} deliveries of {pl[:12]!r} (alg {c['alg']}, {k} relays)", c)
+            if got[:len(sent)] != sent[:len(got)] and sorted(got) == sorted(sent):
+                res.violation("C01:relayed-payloads-out-of-request-order", f"{s_.name}", c)
+
+
 def run_shard(spec, res):
     rng = random.Random(spec["seed"])
     for k in range(spec["cases"]):
+        if k % 8 == 7:
+            c = gen_relay(rng)
+            run_relay_case(c, res)
+            res.case(repr(c))
+            continue
         c = gen_ls_overtake(rng) if k % 5 == 4 else gen(rng)
         run_case(c, res)
         res.case(repr(c))
@@ -375,4 +448,4 @@ def shards(tier, seed):
 
 def replay(case, res):
     c = {k: v for k, v in case.items() if not k.startswith("_")}
-    run_case(c, res)
+    (run_relay_case if c.get("family") == "relay" else run_case)(c, res)
